@@ -6,13 +6,20 @@
 \* through one owner that moves a parameter of another one is a mismatch).
 \*
 \* Event fields: e (action), o (owner), t (target owner of Copy / Assign),
-\* a (arguments), m (name map as list of <<key, source>>), w (write list of
-\* <<name, value>>), r ("ok" | "raise"), ret (flag returned by match),
-\* s = list of owner projections
+\* a (arguments), n (namespace at construction), m (name map as list of
+\* <<key, source>>), w (write list of <<name, value>>), r ("ok" | "raise"),
+\* ret (flag returned by match), s = list of owner projections
 \*     <<id, ns, <<name, value, constraint>>*, <<name, value>>* (independent list),
-\*       <<name, getFrom(name)>>*, <<name, source>>* (getAliases)>>
-\* the last two only when the namespace is empty (the API mixes bare and
-\* qualified names otherwise), else empty.
+\*       <<name, getFrom(name)>>*, <<name, source>>* (getAliases),
+\*       <<name, <<getAlias(name)>> >>*, <<names with hasIndependentParameter>> >>
+\* Names are logged without their namespace.  Which spelling each query takes
+\* and returns (measured on the code, the doc comments do not say):
+\*   getFrom(qualified) -> bare      getAlias(bare) -> qualified, recursive only
+\*   when the namespace is empty      getAliases() : qualified -> bare
+\*   hasIndependentParameter(bare)    getIndependentParameters(): qualified
+\* The driver asks each name query with both spellings and strips the namespace
+\* from whatever comes back, so the relation is asserted under every namespace
+\* without fixing a spelling convention the interface does not promise.
 EXTENDS Aliasing, TraceLib
 
 VARIABLE flag        \* "none", or the name of a known divergence the step exhibits
@@ -25,16 +32,22 @@ Val(s, n)    == s[CHOOSE i \in DOMAIN s : s[i][1] = n]
 OwnerMatches(R, x) ==
   /\ x[2] = R.ns
   /\ Len(x[3]) = Cardinality(R.par) /\ SeqSet(x[3], 1) = R.par
-  /\ \A i \in DOMAIN x[3] : R.val[x[3][i][1]] = x[3][i][2] /\ R.con[x[3][i][1]] = x[3][i][3]
+  /\ \A i \in DOMAIN x[3] : R.val[x[3][i][1]] = x[3][i][2] /\ SameSet(R.con[x[3][i][1]], x[3][i][3])
   \* the independent list: exactly the non-aliased parameters, each once, with the current value
   /\ Len(x[4]) = Cardinality(R.ind) /\ SeqSet(x[4], 1) = R.ind
   /\ \A i \in DOMAIN x[4] : R.val[x[4][i][1]] = x[4][i][2]
-  /\ (R.ns = 0) =>
-        /\ Len(x[5]) = Cardinality(R.par) /\ SeqSet(x[5], 1) = R.par
-        /\ \A i \in DOMAIN x[5] : x[5][i][2] = (IF x[5][i][1] \in DOMAIN R.al THEN R.al[x[5][i][1]] ELSE 0)
-        \* getAliases: every aliased parameter is mapped to something it follows
-        /\ SeqSet(x[6], 1) = DOMAIN R.al
-        /\ \A i \in DOMAIN x[6] : x[6][i][2] \in Anc(R, x[6][i][1])
+  \* getFrom: the direct source of every parameter (0 = none), under every namespace
+  /\ Len(x[5]) = Cardinality(R.par) /\ SeqSet(x[5], 1) = R.par
+  /\ \A i \in DOMAIN x[5] : x[5][i][2] = (IF x[5][i][1] \in DOMAIN R.al THEN R.al[x[5][i][1]] ELSE 0)
+  \* getAliases: every aliased parameter is mapped to something it follows
+  /\ SeqSet(x[6], 1) = DOMAIN R.al
+  /\ \A i \in DOMAIN x[6] : x[6][i][2] \in Anc(R, x[6][i][1])
+  \* getAlias(a): at least the direct followers of a, at most all its followers ("may be recursive or not")
+  /\ SeqSet(x[7], 1) = R.par
+  /\ \A i \in DOMAIN x[7] : LET a == x[7][i][1]  F == {x[7][i][2][j] : j \in DOMAIN x[7][i][2]} IN
+        {b \in DOMAIN R.al : R.al[b] = a} \subseteq F /\ F \subseteq Followers(R, a)
+  \* hasIndependentParameter
+  /\ {x[8][j] : j \in DOMAIN x[8]} = R.ind
 
 Matches(X, S) ==
   /\ Len(S) = Cardinality(DOMAIN X) /\ SeqSet(S, 1) = DOMAIN X
@@ -49,19 +62,20 @@ TReset == /\ IsEvent("Reset")
 TNew == /\ IsEvent("New")
         /\ LET ps == Ev.pars  P == SeqSet(ps, 1) IN
            /\ Len(ps) = Cardinality(P)
-           /\ New(Ev.o, P, [p \in P |-> Val(ps, p)[2]], [p \in P |-> Val(ps, p)[3]])
+           /\ New(Ev.o, P, [p \in P |-> Val(ps, p)[2]], [p \in P |-> Val(ps, p)[3]], Ev.n)
         /\ Seen /\ Clean
 
-TAlias   == IsEvent("Alias") /\ (\E adopt \in BOOLEAN : Alias(Ev.o, Ev.a[1], Ev.a[2], adopt) /\ Seen) /\ Clean
+TAlias   == IsEvent("Alias") /\ (\E adopt, up \in BOOLEAN : Alias(Ev.o, Ev.a[1], Ev.a[2], adopt, up) /\ Seen) /\ Clean
 TUnalias == IsEvent("Unalias") /\ Unalias(Ev.o, Ev.a[1], Ev.a[2]) /\ Seen /\ Clean
 TCopy    == IsEvent("Copy") /\ CopyConstruct(Ev.o, Ev.t) /\ Seen /\ Clean
 TAssign  == IsEvent("Assign") /\ AssignOwner(Ev.o, Ev.t) /\ Seen /\ Clean
 TSetNs   == IsEvent("SetNs") /\ SetNamespace(Ev.o, Ev.a[1]) /\ Seen /\ Clean
 TDrop    == IsEvent("Drop") /\ Drop(Ev.o) /\ Seen /\ Clean
 
-\* the known divergence: the listener cascade stops at a follower that already
-\* holds the new value, so a parameter further down the chain is not updated.
-\* Such a step is explained, but flagged, and NoShortCircuit rejects it by name.
+\* a named diagnosis: a listener cascade that stops at a follower which already
+\* holds the new value, so that a parameter further down the chain is not
+\* updated (the code did this until 3867d3d).  Such a step is explained, but
+\* flagged, and the invariant CascadeComplete rejects it by name.
 ShortCircuited(o, X) ==
   /\ X # own[o]
   /\ own' = [own EXCEPT ![o] = X] /\ flag' = "ShortCircuit" /\ UNCHANGED bulk
@@ -78,34 +92,42 @@ BulkWrites(op) ==
   /\ LET o == Ev.o  ws == Ev.w IN
      \/ /\ BulkSet(o, ws, op) /\ Seen /\ Clean
         /\ (op = "Match" /\ Ev.r = "ok") => Ev.ret = WritesDiffer(own[o], ws)
-     \/ /\ Quiet /\ o \in Live /\ WritesConsistent(own[o], ws) /\ ~WritesRejected(own[o], ws) /\ WritesAcceptable(own[o], ws)
+     \/ /\ Quiet /\ o \in Live /\ WritesConsistent(own[o], ws) /\ ~WritesRejected(own[o], ws)
         /\ Writes(own[o], ws, TRUE) # Writes(own[o], ws, FALSE)
         /\ ShortCircuited(o, Writes(own[o], ws, TRUE)) /\ Ret(op, o, 0, "ok") /\ Seen
 TBulkSet == BulkWrites("BulkSet")
 TMatch   == BulkWrites("Match")
 
 \* bulk aliasParameters: one event = the whole loop of the model
-RECURSIVE RunBulk(_, _, _)
-RunBulk(R, b, fuel) == IF b.pc # "loop" \/ fuel = 0 THEN [R |-> R, b |-> b]
-                       ELSE LET S == BulkIter(R, b) IN RunBulk(S.R, S.b, fuel - 1)
+RECURSIVE RunBulk(_, _, _, _)
+RunBulk(R, b, up, fuel) == IF b.pc # "loop" \/ fuel = 0 THEN [R |-> R, b |-> b]
+                           ELSE LET S == BulkIter(R, b, up) IN RunBulk(S.R, S.b, up, fuel - 1)
 MapOf(ms) == [k \in SeqSet(ms, 1) |-> Val(ms, k)[2]]
 
 TBulkAlias ==
   /\ IsEvent("BulkAlias")
   /\ LET o == Ev.o  m == MapOf(Ev.m) IN
-     /\ Quiet /\ o \in Live /\ own[o].ns = 0 /\ AllInside(own[o])
+     /\ Quiet /\ o \in Live
      /\ Len(Ev.m) = Cardinality(DOMAIN m)
-     /\ LET n   == Cardinality(DOMAIN m)
-            fin == RunBulk(own[o], BulkBegin(own[o], o, m), (n + 2) * (n + 2))
-        IN
-        \/ /\ fin.b.pc = "ok" /\ Ev.r = "ok"                       \* all links performed
-           /\ \/ own' = [own EXCEPT ![o] = fin.R] /\ Clean          \* ... values left alone
-              \/ own' = [own EXCEPT ![o] = Writes(fin.R, SyncWrites(fin.R, fin.b), FALSE)] /\ Clean   \* ... or synchronised
-              \/ /\ Writes(fin.R, SyncWrites(fin.R, fin.b), TRUE) # Writes(fin.R, SyncWrites(fin.R, fin.b), FALSE)
-                 /\ own' = [own EXCEPT ![o] = Writes(fin.R, SyncWrites(fin.R, fin.b), TRUE)] /\ flag' = "ShortCircuit"
-        \/ /\ fin.b.pc = "raise" /\ Ev.r = "raise"                 \* refused: nothing, or the links made before the refusal
-           /\ \E k \in 0..Len(fin.b.order) : own' = [own EXCEPT ![o] = AfterLinks(own[o], m, fin.b.order, k)]
-           /\ Clean
+     /\ \/ \E up \in BOOLEAN :
+            LET n   == Cardinality(DOMAIN m)
+                fin == RunBulk(own[o], BulkBegin(own[o], o, m), up, (n + 2) * (n + 2))
+                sw  == SyncWrites(fin.R, fin.b)
+            IN
+            \/ /\ fin.b.pc = "ok" /\ Ev.r = "ok"                       \* all links performed
+               /\ \/ own' = [own EXCEPT ![o] = fin.R] /\ Clean          \* ... values left alone
+                  \/ /\ ~WritesRejected(fin.R, sw)                       \* ... or synchronised
+                     /\ own' = [own EXCEPT ![o] = Writes(fin.R, sw, FALSE)] /\ Clean
+                  \/ /\ ~WritesRejected(fin.R, sw)
+                     /\ Writes(fin.R, sw, TRUE) # Writes(fin.R, sw, FALSE)
+                     /\ own' = [own EXCEPT ![o] = Writes(fin.R, sw, TRUE)] /\ flag' = "ShortCircuit"
+            \/ /\ fin.b.pc = "ok" /\ Ev.r = "raise" /\ WritesRejected(fin.R, sw)   \* links made, synchronisation refused
+               /\ own' = [own EXCEPT ![o] = fin.R] /\ Clean
+            \/ /\ fin.b.pc = "raise" /\ Ev.r = "raise"                 \* refused: nothing, or the links made before the refusal
+               /\ \E k \in 0..Len(fin.b.order) : own' = [own EXCEPT ![o] = AfterLinks(own[o], m, fin.b.order, k, up)]
+               /\ Clean
+        \* non-empty namespace: the spelling of the map's names is not defined, a refusal that changes nothing is accepted
+        \/ /\ own[o].ns # 0 /\ DOMAIN m # {} /\ Ev.r = "raise" /\ own' = own /\ Clean
      /\ Ret("BulkAlias", o, 0, Ev.r) /\ UNCHANGED bulk
      /\ Matches(own', Ev.s)
 
@@ -114,5 +136,5 @@ TraceNext == TReset \/ TNew \/ TAlias \/ TUnalias \/ TCopy \/ TAssign \/ TSetNs 
 TraceInit == Init /\ l = 1 /\ flag = "none"
 TraceSpec == TraceInit /\ [][TraceNext]_tvars
 
-NoShortCircuit == flag = "none"
+CascadeComplete == flag = "none"
 =============================================================================
